@@ -6,6 +6,23 @@ BASELINE = ("cd /repo && cargo nextest run --workspace --no-fail-fast --tool-con
             "--profile pb --test-threads 8 --offline")
 TECH = "contract-based deductive verification: Verus (Z3) on functions of /repo extracted mechanically on every run"
 CLAIMED = {
+ "C04": dict(
+   text=("Partial claim — a thin slice: the compile-time clause 'the registration in the nearest enclosing (nested) blueprint wins (within "
+         "one blueprint, the latest registration), registrations of parents are inherited, registrations of sibling blueprints are "
+         "invisible'. Verus discharges, on the real text of pavexc's ConstructibleDb::get (the breadth-first walk over the scope graph, "
+         "loop invariant + termination measure, for every graph whose parents have smaller ids than their children), "
+         "ConstructiblesInScope::{new, get, insert} (the per-scope table: by value for the type itself, by shared/exclusive borrow for the "
+         "referent of a non-'static reference; a later insert overwrites exactly that entry) and ScopeGraphBuilder::{new, root_scope_id, "
+         "add_scope} (a fresh scope hangs under exactly the given parent; parents below children is preserved): a result comes from a "
+         "scope on an upward path from the requesting scope with no scope fewer steps away offering one; None only if no scope on any "
+         "upward path offers one. Four lemmas conclude the statement's sentences from those postconditions. A bounded model-based native "
+         "search (labelled bounded) drives the real builder, ScopeGraphBuilder::build, direct_parent_ids and get."),
+   note=("NOT decided — and this is most of C04: that the VALUE injected at run time was produced by that constructor, is fully "
+         "constructed before use and is never duplicated unless clone-if-necessary are properties of the emitted program (DESIGN §1.3); "
+         "template specialisation (get_or_try_bind, is_a_template_for) is the type algebra of C17 (not claimed); ScopeGraphBuilder::build "
+         "and ScopeId::direct_parent_ids (petgraph iterator chains) are assumed contracts exercised only by the bounded search; that "
+         "process_blueprint hands each nested blueprint a fresh scope under its parent and registers components in it is not under contract."),
+   design="§3/C04"),
  "C07": dict(
    text=("Partial claim — a thin slice: the one clause of the statement that is decided by hand-written run-time code. Verus discharges, "
          "on the real text of pavex::router::default_fallback and AllowedMethods::allow_header_value, that the default fallback answers "
